@@ -135,6 +135,12 @@ Proof.
   intros y Hy. apply H. right. exact Hy.
 Qed.
 
+(* octave-once marks in front of a note: plain (non-loop) tokens *)
+Lemma loop_free_once marks t : loop_free_tok t = true -> loop_free (map TOctaveOnce marks ++ [t]) = true.
+Proof.
+  intros H. unfold loop_free. induction marks as [|k r IH]; cbn [map app forallb loop_free_tok]; [rewrite H; reflexivity|exact IH].
+Qed.
+
 Theorem flatten_prog_cmd : forall c, flatten (prog_cmd c) = map to_ltok (tok_cmd c).
 Proof.
   induction c as [c IH] using cmd_children_ind. destruct c; try reflexivity.
@@ -154,6 +160,8 @@ Proof.
     cbn [children] in IH. cbn [prog_cmd tok_cmd]. fold (progl items). fold (tokens_of items).
     rewrite flatten_cons, flat_item_leaf, (flatten_app tok), flatten_cons, flat_item_leaf, (flatten_progl_of items IH).
     cbn [map to_ltok app flatten]. rewrite map_app. reflexivity.
+  - (* octave-once marks and their note *)
+    cbn [prog_cmd tok_cmd]. symmetry. apply flatten_leaves. apply loop_free_once. reflexivity.
 Qed.
 
 Lemma flatten_progl l : flatten (progl l) = map to_ltok (tokens_of l).
@@ -221,6 +229,8 @@ Section Cost.
       rewrite cost_cons, cost_item_leaf, cost_papp, cost_cons, cost_item_leaf.
       pose proof (cost_progl_of items IH (sem_item tok (res song) (step_tok ec) halted (count1 count_of) (Leaf THarmonyBegin) r)).
       cbn [cost]. lia.
+    - (* octave-once marks and their note *)
+      cbn [prog_cmd tok_cmd flat_cost]. rewrite cost_leaves, app_length, map_length. cbn [length]. lia.
   Qed.
 
   Lemma cost_progl l r : (COST (progl l) r <= flat_cost_l l)%nat.
@@ -281,6 +291,9 @@ Proof.
   change (count_l (x :: r)) with (count_cmd x + count_l r). lia.
 Qed.
 
+Lemma dc_once marks : forall acc, fold_left dc_step (map TOctaveOnce marks) acc = acc.
+Proof. induction marks as [|k r IH]; intros acc; [reflexivity|]. cbn [map fold_left dc_step]. apply IH. Qed.
+
 Theorem dc_tok_cmd : forall c acc, fold_left dc_step (tok_cmd c) acc = acc + count_cmd c.
 Proof.
   induction c as [c IH] using cmd_children_ind. intros acc.
@@ -296,6 +309,8 @@ Proof.
   - (* chord *)
     cbn [children] in IH. cbn [tok_cmd count_cmd]. fold (tokens_of items). rewrite (count_sum_eq items).
     cbn [fold_left dc_step]. rewrite fold_left_app, (dc_tokens_of items IH). cbn [fold_left dc_step]. lia.
+  - (* octave-once marks and their note: the marks take no share *)
+    cbn [tok_cmd count_cmd]. rewrite fold_left_app, dc_once. cbn [fold_left dc_step]. rewrite hats_eq. lia.
 Qed.
 
 Lemma tuplet_count_eq l : tuplet_count l = count_l l.
